@@ -1,0 +1,222 @@
+//go:build linux && verif
+
+package container
+
+import (
+	"bufio"
+	"fmt"
+	"os"
+	"strconv"
+	"strings"
+	"sync"
+	"syscall"
+
+	"github.com/criyle/go-sandbox/pkg/unixsocket"
+)
+
+// Named points for the verification harness (build tag verif only).
+const (
+	VPHostSendPre = iota + 1
+	VPHostSendPost
+	VPHostRecv
+	VPHostSelect
+	VPHostBrDone
+	VPHostBrCtx
+	VPHostBrResult
+	VPContSendPre
+	VPContSendPost
+	VPContRecv
+	VPContWaited
+	VPContDispatch
+	VPContStarted
+	VPContSelect
+	VPContBrDone
+	VPContBrKill
+	VPContBrExit
+)
+
+const (
+	vpHostSendPre  = VPHostSendPre
+	vpHostSendPost = VPHostSendPost
+	vpHostRecv     = VPHostRecv
+	vpHostSelect   = VPHostSelect
+	vpHostBrDone   = VPHostBrDone
+	vpHostBrCtx    = VPHostBrCtx
+	vpHostBrResult = VPHostBrResult
+	vpContSendPre  = VPContSendPre
+	vpContSendPost = VPContSendPost
+	vpContRecv     = VPContRecv
+	vpContWaited   = VPContWaited
+	vpContDispatch = VPContDispatch
+	vpContStarted  = VPContStarted
+	vpContSelect   = VPContSelect
+	vpContBrDone   = VPContBrDone
+	vpContBrKill   = VPContBrKill
+	vpContBrExit   = VPContBrExit
+)
+
+// Reply kinds reported by message points.
+const (
+	VKAck = iota
+	VKErr
+	VKResult
+	VKBatch
+	VKCred = 16 // added when credentials are attached
+)
+
+// VerifHook, when set in the host process, is called synchronously at every host-side point.
+// The harness may block in it to hold the calling goroutine at that point.
+var VerifHook func(id, arg int)
+
+var (
+	vpOnce sync.Once
+	vpOn   bool
+	vpMu   sync.Mutex
+	vpSeq  int
+	vpWait = map[int]chan struct{}{}
+)
+
+// container init side: if stderr is a socket, every point is announced as "VP <seq> <id> <arg>\n" on it and the
+// goroutine is parked until the line "<seq>\n" comes back
+func vpInit() {
+	if os.Getpid() != 1 {
+		return
+	}
+	var st syscall.Stat_t
+	if err := syscall.Fstat(2, &st); err != nil || st.Mode&syscall.S_IFMT != syscall.S_IFSOCK {
+		return
+	}
+	vpOn = true
+	go func() {
+		rd := bufio.NewReader(os.NewFile(uintptr(dupFd(2)), "verif-ack"))
+		for {
+			line, err := rd.ReadString('\n')
+			if err != nil {
+				return
+			}
+			n, err := strconv.Atoi(strings.TrimSpace(line))
+			if err != nil {
+				continue
+			}
+			vpMu.Lock()
+			ch := vpWait[n]
+			delete(vpWait, n)
+			vpMu.Unlock()
+			if ch != nil {
+				close(ch)
+			}
+		}
+	}()
+}
+
+func dupFd(fd int) int {
+	n, err := syscall.Dup(fd)
+	if err != nil {
+		return fd
+	}
+	syscall.CloseOnExec(n)
+	return n
+}
+
+func verifPoint(id, arg int) {
+	if h := VerifHook; h != nil {
+		h(id, arg)
+		return
+	}
+	vpOnce.Do(vpInit)
+	if !vpOn {
+		return
+	}
+	ch := make(chan struct{})
+	vpMu.Lock()
+	vpSeq++
+	seq := vpSeq
+	vpWait[seq] = ch
+	vpMu.Unlock()
+	if _, err := syscall.Write(2, []byte(fmt.Sprintf("VP %d %d %d\n", seq, id, arg))); err != nil {
+		return
+	}
+	<-ch
+}
+
+func verifMsg(id int, r *reply, m *unixsocket.Msg) {
+	k := VKAck
+	switch {
+	case r.Error != nil:
+		k = VKErr
+	case r.ExecReply != nil:
+		k = VKResult
+	case r.BatchErrors != nil:
+		k = VKBatch
+	}
+	if m != nil && m.Cred != nil {
+		k += VKCred
+	}
+	verifPoint(id, k)
+}
+
+func verifErr(id int, err error) {
+	if err != nil {
+		verifPoint(id, 1)
+		return
+	}
+	verifPoint(id, 0)
+}
+
+// VerifSocket exposes the gob-framed control socket for two-ended tests (build tag verif only).
+type VerifSocket struct{ s *socket }
+
+// NewVerifSocket wraps a raw socket in the framed layer used between host and container.
+func NewVerifSocket(s *unixsocket.Socket) *VerifSocket { return &VerifSocket{s: newSocket(s)} }
+
+// SendCmd sends a command of the given type whose exec parameters carry argv and env.
+func (v *VerifSocket) SendCmd(typ int, argv, env []string, m unixsocket.Msg) error {
+	c := cmd{Cmd: cmdType(typ)}
+	if argv != nil || env != nil {
+		c.ExecCmd = &execCmd{Argv: argv, Env: env}
+	}
+	return v.s.SendMsg(c, m)
+}
+
+// RecvCmd receives one command.
+func (v *VerifSocket) RecvCmd() (typ int, argv, env []string, m unixsocket.Msg, err error) {
+	var c cmd
+	m, err = v.s.RecvMsg(&c)
+	if err != nil {
+		return 0, nil, nil, m, err
+	}
+	if c.ExecCmd != nil {
+		argv, env = c.ExecCmd.Argv, c.ExecCmd.Env
+	}
+	return int(c.Cmd), argv, env, m, nil
+}
+
+// SendReply sends a reply; errText != "" sets Error, batch != nil sets BatchErrors.
+func (v *VerifSocket) SendReply(errText string, batch []string, exit *int, m unixsocket.Msg) error {
+	var r reply
+	if errText != "" {
+		r.Error = &errorReply{Msg: errText}
+	}
+	r.BatchErrors = batch
+	if exit != nil {
+		r.ExecReply = &execReply{ExitStatus: *exit}
+	}
+	return v.s.SendMsg(r, m)
+}
+
+// RecvReply receives one reply.
+func (v *VerifSocket) RecvReply() (errText string, batch []string, exit *int, m unixsocket.Msg, err error) {
+	var r reply
+	m, err = v.s.RecvMsg(&r)
+	if err != nil {
+		return "", nil, nil, m, err
+	}
+	if r.Error != nil {
+		errText = r.Error.Msg
+	}
+	if r.ExecReply != nil {
+		e := r.ExecReply.ExitStatus
+		exit = &e
+	}
+	return errText, r.BatchErrors, exit, m, nil
+}
